@@ -26,6 +26,7 @@ pub static PROP: Prop = Prop {
     rule: "(60%) a pipeline of 1..4 (thorough 1..6) public operations applied to the result of the previous one, starting from a constructor (identity, twist, singleton, tensor_operations, spider, half_spider, generated diagram): compose on either side with a generated partner of the matching type, tensor on either side, dagger, strict functor / optic / adapt with generated tables, lax round trip, lax compose / tensor_assign / quotient path, vertex coequalisation; after every step the value is re-checked by the deep well-formedness checker on raw fields and its type is compared with the promised one; (40%) raw nested data for the checked constructors of finite functions, hypergraphs and open hypergraphs, well-formed or with one planted flaw at a boundary value (acceptance iff the documented conditions hold; an Err names a false condition); non-trivial = pipelines of depth >= 2 with >= 1 hyperedge, planted-flaw cases, accepted raw cases with >= 1 edge; distinct = hash of the generated data",
     assumptions: &["components are built through their own checked constructors, never by struct literals that bypass them"],
     fixed: None,
+    scale: None,
 };
 
 fn check(t: &mut Tape, ctx: &mut Ctx) -> CheckResult {
@@ -199,6 +200,20 @@ fn pipeline(t: &mut Tape, ctx: &mut Ctx) -> CheckResult {
                 let l = LOH::from_strict(cur.clone());
                 let c = Arrow::compose(&l, &to_lax_d(&g)).ok_or_else(|| ctx.fail("compose-defined", "lax composition undefined although types match"))?;
                 from_lax(&c).map_err(|e| ctx.fail("output-well-formed", format!("lax compose: {e}")))?;
+                // a partner of equal arity whose labels differ at one position: every composition entry
+                // point must either refuse or return something that can be quotiented
+                if !b.is_empty() && al.nl >= 2 {
+                    let mut wrong = b.clone();
+                    let i = t.choice(wrong.len());
+                    wrong[i] = (wrong[i] + 1) % al.nl as u32;
+                    let tl2 = type_list(t, al, 2);
+                    let bad = gen::diagram_with_boundary(t, &sz, al, &wrong, &tl2, ctx);
+                    for (name, r) in [(">>", &l >> &to_lax_d(&bad)), ("compose", Arrow::compose(&l, &to_lax_d(&bad)))] {
+                        if let Some(mut r) = r {
+                            ensure!(ctx, r.quotient().is_ok(), "output-well-formed", "lax {name} of diagrams with different boundary labels returned a diagram that cannot be quotiented");
+                        }
+                    }
+                }
                 // the composite still carries its pending pairs when it is appended in place
                 let mut acc = to_lax_d(&h);
                 acc.tensor_assign(c);
